@@ -300,6 +300,8 @@ pub fn run_matrix(tier: &str, seed: u64, out: &mut Out) {
         "<block wx:for=\"{{ g }}\"><block wx:for=\"{{ item.members }}\"><v model:value=\"{{ item.name }}\"/></block><v model:value=\"{{ item.title }}\"/></block>",
         "<block wx:for=\"{{ g[d].members }}\"><v model:value=\"{{ item.name }}\" model:w=\"{{ g[d].members[index].name }}\"/></block>",
         "<block wx:for=\"{{ a ? g : k }}\"><block wx:for=\"{{ item.members }}\" wx:for-item=\"mm\"><v model:value=\"{{ mm.name }}\"/></block></block>",
+        // a list that has a data path or none (a literal), depending on data: the item's path variable is null in the second case
+        "<block wx:for=\"{{ a ? g : [{name: 'lit', members: [{name: 'lm'}]}] }}\"><v model:value=\"{{ item.name }}\" bind:tap=\"{{ item.name }}\"/><block wx:for=\"{{ item.members }}\" wx:for-item=\"mm\"><v model:value=\"{{ mm.name }}\"/></block></block>",
     ];
     let loop_data: Vec<J> = vec![
         json!({"$o": {"a": 1, "d": 0, "f": {"$fn": "ff"},
